@@ -1,7 +1,7 @@
 //! Stream `nest` (C13): every sequence of the nesting constructs (parenthesis, not,
 //! quantifier, function-call argument list) up to a depth bound, at boolean and at array
-//! level, with the deepest path alone / in the right operand of a chain / in a function
-//! argument, parsed under every configured limit d.
+//! level, with the deepest path alone / in the right operand of a chain (at top level and inside
+//! every parenthesised group) / in a function argument, parsed under every configured limit d.
 use crate::Cfg;
 use crate::core;
 use crate::coreops::Core;
@@ -9,7 +9,10 @@ use crate::fgen;
 use crate::out::{Out, hex};
 
 /// render a shape; returns (text, nesting depth as the property counts it)
-fn render(shape: &[u8], wrapper: u8, variant: u8) -> (String, u32) {
+fn render(shape: &[u8], wrapper: u8, variant: u8, pmode: u8) -> (String, u32) {
+    // pmode: how a boolean-level parenthesis is filled: 0 `(X)`, 1 `(b or X)`, 2 `(b and ob xor X)`,
+    // 3 `(X or b)` - the deepest path in a non-first / first operand of a chain INSIDE a group
+    // (seeded change C13-e: the group's depth was only handed to the first operand)
     // constructs at boolean level: P ( ), N not, F b2i(..)==1, Q any(..) -> array level
     // constructs at array level: p ( ), n not, m mapped call atom
     let mut arr = false;
@@ -19,6 +22,15 @@ fn render(shape: &[u8], wrapper: u8, variant: u8) -> (String, u32) {
     let mut atom: Option<String> = None;
     for &c in shape {
         match (c, arr) {
+            (b'P', false) if pmode != 0 => {
+                open.push_str(match pmode {
+                    1 => "(b or ",
+                    2 => "(b and ob xor ",
+                    _ => "(",
+                });
+                close.insert_str(0, if pmode == 3 { " or b)" } else { ")" });
+                depth += 1;
+            }
             (b'P', _) => {
                 open.push('(');
                 close.insert(0, ')');
@@ -123,7 +135,7 @@ pub fn run(cfg: Cfg, out: &mut Out) {
                 continue;
             }
             let wrapper = (idx % 5) as u8;
-            let (text, depth) = render(s, wrapper, ((idx / 5) % 4) as u8);
+            let (text, depth) = render(s, wrapper, ((idx / 5) % 4) as u8, ((idx / 20) % 4) as u8);
             let op = format!("parse {}", hex(text.as_bytes()));
             let ans = core.apply(&op).unwrap();
             // oracle from the property text: accepted iff nesting <= d
@@ -161,7 +173,8 @@ pub fn run(cfg: Cfg, out: &mut Out) {
                 s.push(c);
             }
             let variant = rng.below(4) as u8;
-            let (text, depth) = render(&s, wrapper, variant);
+            let pmode = rng.below(4) as u8;
+            let (text, depth) = render(&s, wrapper, variant, pmode);
             let op = format!("parse {}", hex(text.as_bytes()));
             let ans = core.apply(&op).unwrap();
             let expect = if depth <= d as u32 { "ok" } else { "err" };
